@@ -10,7 +10,11 @@ import PGA.Props.C02
 For the model of the decomposition above the matcher: any renumbering `π` of the atoms (a bijection preserving
 `0..n-1`), with the neighbour lists transported as multisets and the patterns' matches transported as *sets*
 (`Relabel`, `PGA/Spec/Relabel.lean`), leaves every count and the failure outcome unchanged.  Every molecule size,
-every scheme, every chain-free remap table.  That a correct matcher transports matches this way is C08.
+every scheme, every chain-free remap table.  That the matcher transports matches this way is proved below, end to
+end: every predicate of `Spec.Embeds` is invariant under a renumbering of the graph (`C03_embeds_relabel`, via
+`Spec.OpenMap`), the perception commutes with it (`C03_aromatize_relabel`), hence `PGA.Decompose.decompose` gives the same
+result on a renumbered graph (`C03_decompose_relabel`) and — under the guard below — on a graph whose rings are presented
+differently (`C03_decompose_ring_presentation_partial`; without the guard: refuted, `…_full_fails`).
 
 The Benson C6 perception (`PGA/Model/Aromatize.lean`, `C03_aromatize_*` below) does not depend on where a ring's atom
 list starts or which way round it runs, and not on the ORDER of the ring list as long as no two rings that pass the
